@@ -18,7 +18,7 @@ RULE = ("programs in the common subset of the three front ends: lets (named / an
         "program's meaning, and behave alike under expand_macros, fill_in_let, expand_subcircuits and the used-qubit analysis. "
         "non-trivial = program has an anonymous object, a nested block or a macro; distinct = program spec / (program, choices)")
 ASSUMPTIONS = ["the auto-naming scheme is not prescribed: names are read back; only freshness and equality of the circuits are judged"]
-TIERS = {"quick": {"shards": 8, "budget_s": 100}, "thorough": {"shards": 16, "budget_s": 300}}
+TIERS = {"quick": {"shards": 8, "budget_s": 200}, "thorough": {"shards": 16, "budget_s": 300}}
 REQUIRE = {"text-route-with-random-layout-and-comments": 1500, "qsyntax-functions-called-twice": 1500, "programs": 1500, "anonymous-let": 300, "anonymous-register": 300, "user-name-like-auto-name": 200,
            "implicit-wrap-expected": 300, "no-wrap-expected": 300, "pairs-compared": 4000, "subcircuit-with-count": 100,
            "full:programs": 1000, "full:programs-with-the-gate-set-in-force": 500, "full:near-twin-number-literals": 150, "full:macro-eager": 300, "full:loop-eager": 100, "full:map-eager": 200, "full:behaviour-compared": 3000,
